@@ -39,7 +39,9 @@ INTERNAL_SINKS = {
 # external sinks whose length argument is in bits
 EXT_SINKS_BITS = {"AES_set_encrypt_key": [(0, 1, "r")], "AES_set_decrypt_key": [(0, 1, "r")]}
 # external functions that read/write a fixed number of bytes through a pointer argument
-EXT_FIXED = {"AES_encrypt": [(0, 16, "r"), (1, 16, "w")], "AES_decrypt": [(0, 16, "r"), (1, 16, "w")]}
+EXT_FIXED = {"AES_encrypt": [(0, 16, "r"), (1, 16, "w")], "AES_decrypt": [(0, 16, "r"), (1, 16, "w")],
+             "HMAC": [(5, 20, "w")]}
+EXT_PAIRS = {"HMAC": [(1, 2, "r"), (3, 4, "r")], "PKCS5_PBKDF2_HMAC_SHA1": [(0, 1, "r"), (2, 3, "r"), (6, 5, "w")]}
 
 
 def tname(t):
@@ -84,9 +86,6 @@ PRE_ORDER = {
 # Class invariants: assumed on entry of every non-constructor member function, proved at every normal exit of
 # constructors and non-const member functions.  Each item: (text, [(sign, ("fld"|"size", name)), ...]) meaning sum >= 0
 CLASS_INVARIANTS = {
-    "Tins::Crypto::WPA2::SessionKeys": [
-        ("ptk_.size() >= 80 (PTK_SIZE)", [(1, ("call", "ptk_.size()")), (-80, ("one",))]),
-    ],
     "Tins::DNS": [
         ("answers_idx_ <= authority_idx_", [(1, ("fld", "authority_idx_")), (-1, ("fld", "answers_idx_"))]),
         ("authority_idx_ <= additional_idx_", [(1, ("fld", "additional_idx_")), (-1, ("fld", "authority_idx_"))]),
@@ -244,6 +243,7 @@ class FnBounds(object):
         self.pairs = pair_params if pair_params is not None else self.find_pairs()
         self.requirements = []  # for summaries: (param index, Lin need over p0 atoms)
         self.field_writes = 0
+        self.state_requirements = []
         self.init_member = {}
         for i in f.get("inits", []):
             if i.get("member") and i.get("e"):
@@ -572,6 +572,11 @@ class FnBounds(object):
                 return st.sym[var]
             t = facts.ty(f, e)
             if e.get("glob") and (is_int(t) or is_ptr(t)):
+                gd = self.db.globals.get(var)
+                if gd is not None and gd.get("init") is not None and (gd.get("const") or (t or {}).get("const")):
+                    gv = facts.cval(gd["init"])
+                    if gv is not None:
+                        return const(gv)
                 return atom(("glob", var))
             return None
         if k == "MemberExpr" and e.get("isfield"):
@@ -685,6 +690,10 @@ class FnBounds(object):
             if a is not None and b is not None and a.is_const() and b.is_const():
                 self.pending.append(o - min(a.k, b.k))
                 self.pending.append(const(max(a.k, b.k)) - o)
+            elif a is not None and b is not None:
+                ua, ub_ = self.upper(a), self.upper(b)
+                if ua is not None and ub_ is not None:
+                    self.ub[o.atoms()[0]] = max(ua, ub_)
             # min / max idioms:  (x < y) ? x : y
             cf = cond.facts_of(f, c[0], True)
             if a is not None and b is not None and len(cf) == 1 and cf[0][2] is not None:
@@ -1025,6 +1034,15 @@ class FnBounds(object):
         self.inn = inn
         return self
 
+    def elem_size_of_var(self, var):
+        for n in facts.fn_nodes(self.f):
+            if n["k"] == "VarDecl" and n.get("var") == var:
+                return self.elem_size(facts.tyi(self.f, n.get("t")))
+        for p_ in self.f["params"]:
+            if p_["var"] == var:
+                return self.elem_size(facts.tyi(self.f, p_["t"]))
+        return 1
+
     def project(self, G, X, Y, keep=()):
         """weaken fact G (valid on side X) to atoms that side Y also knows: atoms local to X are replaced by
         their constant bounds on X (upper bound for positive coefficients, lower bound for negative ones)"""
@@ -1188,6 +1206,12 @@ class FnBounds(object):
                     if pb not in based and pb != pa:
                         LA2, LB2 = val(a, pb), val(b, pb)
                         if LA2 is not None and LB2 is not None:
+                            # pointer offset moves together with a counter:  off == k * counter
+                            es = self.elem_size_of_var(pa[2])
+                            for G3 in (atom(pa) - atom(pb).scale(es), atom(pb).scale(es) - atom(pa)):
+                                if G3 not in out and self.prove(G3.subst(pa, LA).subst(pb, LA2), a) and \
+                                        self.prove(G3.subst(pa, LB).subst(pb, LB2), b):
+                                    out.add(G3)
                             G2 = self.extent[based[pa]] - atom(pa) - atom(pb)
                             if G2 not in out and self.prove(G2.subst(pa, LA).subst(pb, LA2), a) and \
                                     self.prove(G2.subst(pa, LB).subst(pb, LB2), b):
@@ -1195,6 +1219,9 @@ class FnBounds(object):
             for G in cands:
                 if G not in out and self.prove(G.subst(pa, LA), a) and self.prove(G.subst(pa, LB), b):
                     out.add(G)
+            ua, ub_ = self.upper(LA), self.upper(LB)
+            if ua is not None and ub_ is not None and not (LA.is_const() and LB.is_const()):
+                out.add(const(max(ua, ub_)) - atom(pa))
             # constants on both sides: phi bounded by both
             if LA.is_const() and LB.is_const():
                 out.add(atom(pa) - min(LA.k, LB.k))
@@ -1425,6 +1452,14 @@ class FnBounds(object):
                             "loop-carried offset whose bound comes from a division/modulo (%s bytes at offset %s): outside the "
                             "linear language" % (n, off))
                 return
+            if self.can_export_state():
+                goals = [G_ for G_, okk_ in ((off, ok_lo), (need_hi, ok_hi), (n, ok_n)) if not okk_]
+                if all(not G_.mentions(lambda a: a[0] not in ("call", "fld", "p0")) for G_ in goals):
+                    for G_ in goals:
+                        self.state_requirements.append((G_, text))
+                    self.record(node, kind, text, "ok", "exported as a requirement on the callers: %s" %
+                                " and ".join("%s >= 0" % G_ for G_ in goals))
+                    return
             why = []
             if not ok_hi:
                 why.append("cannot show %s <= %s (bytes available) from the guards in force: {%s}" %
@@ -1434,6 +1469,100 @@ class FnBounds(object):
             if not ok_n:
                 why.append("length %s may be negative (unsigned wrap)" % n)
             self.record(node, kind, text, "violation", "; ".join(why))
+
+    def can_export_state(self):
+        """private member functions and helpers local to a source file may rely on their callers' guards"""
+        f = self.f
+        if self.depth > 2:
+            return False
+        if f.get("access") == "private":
+            return True
+        rec = self.db.records.get(f.get("rec") or "")
+        if rec is not None and rec["file"].startswith("src/"):
+            return True
+        if f["id"].endswith(".cpp") and f["file"].startswith("src/"):
+            return True      # internal linkage (id carries the file suffix)
+        return False
+
+    STATE_REQ_CACHE = {}
+
+    def callee_state_requirements(self, callee):
+        key = (self.db.key, callee)
+        if key in FnBounds.STATE_REQ_CACHE:
+            return FnBounds.STATE_REQ_CACHE[key]
+        g = self.db.fn(callee)
+        res = None
+        if g is not None and g.get("cfg") and self.depth < 3:
+            FnBounds.STATE_REQ_CACHE[key] = None
+            try:
+                b = FnBounds(self.db, g, depth=self.depth + 1)
+                if b.can_export_state():
+                    b.run()
+                    res = (list(b.state_requirements), g)
+            except Exception:
+                res = None
+        FnBounds.STATE_REQ_CACHE[key] = res
+        return res
+
+    def check_state_requirements(self, n, args, st, pos):
+        callee = n.get("callee")
+        if not callee or n.get("ext"):
+            return
+        r = self.callee_state_requirements(callee)
+        if not r or not r[0]:
+            return
+        reqs, g_ = r
+        # how the callee's names translate here: parameters -> argument expressions, members -> same object
+        ren = {}
+        argl = {}
+        for j, pp in enumerate(g_["params"]):
+            if j < len(args) and isinstance(args[j], dict):
+                ren[pp["name"]] = self.canon_name(strip(args[j]))
+                argl[("p0", pp["var"])] = self.lin(args[j], st, pos)
+        recv = cfg.receiver(n) if n["k"] == "CXXMemberCallExpr" else None
+        rprefix = ""
+        if recv is not None and strip(recv)["k"] != "CXXThisExpr":
+            rprefix = self.canon_name(strip(recv)) + ("->" if is_ptr(facts.ty(self.f, strip(recv))) else ".")
+        import re as _re
+        seen = set()
+        for G, text in reqs:
+            H = const(G.k)
+            okk = True
+            for a, c in G.t:
+                if a[0] == "p0":
+                    v = argl.get(a)
+                    if v is None:
+                        okk = False
+                        break
+                    H = H + v.scale(c)
+                else:
+                    nm = a[1]
+                    m = _re.match(r"^([A-Za-z_]\w*)(.*)$", nm)
+                    if m and m.group(1) in ren:
+                        nm = ren[m.group(1)] + m.group(2)
+                    elif rprefix:
+                        nm = rprefix + nm
+                    na = (a[0], nm)
+                    if a in self.ub:
+                        self.ub.setdefault(na, self.ub[a])
+                    H = H + atom(na).scale(c)
+            key = (repr(H))
+            if key in seen:
+                continue
+            seen.add(key)
+            fake = {"id": "req:%s:%s" % (n["id"], key), "l": n.get("l", 0), "k": "Requirement"}
+            txt = "%s() requires %s >= 0 [%s]" % (g_["name"], G, text[:50])
+            if not okk:
+                self.record(fake, "requirement", txt, "undecided", "cannot express the callee's requirement at this call")
+            elif self.prove(H, st):
+                self.record(fake, "requirement", txt, "ok", "%s >= 0 holds here" % H)
+            elif self.can_export_state() and not H.mentions(lambda a: a[0] not in ("call", "fld", "p0")):
+                self.state_requirements.append((H, txt))
+                self.record(fake, "requirement", txt, "ok", "passed on to this function's own callers")
+            else:
+                self.record(fake, "requirement", txt, "violation",
+                            "callee %s relies on %s >= 0 which does not hold at this call; facts: {%s}" %
+                            (g_["name"], H, ", ".join("%s>=0" % x for x in sorted(st.facts, key=repr)[:8])))
 
     def is_exported(self, B):
         return self.export and B[0] == "p0"
@@ -1458,8 +1587,9 @@ class FnBounds(object):
             t = facts.ty(f, n)
             fake = {"id": n["id"], "k": "MemberExpr", "isfield": True, "member": self.init_member[n["id"]], "t": n.get("t"),
                     "c": [{"id": -1, "k": "CXXThisExpr", "t": None}]}
-            if k in ("CXXConstructExpr",) and (facts.ty(f, n) or {}).get("k") == "rec" and self.vec_base(fake) is not None:
-                a_ = n.get("c", [])
+            n0 = strip(n)
+            if n0["k"] in ("CXXConstructExpr",) and (facts.ty(f, n0) or {}).get("k") == "rec" and self.vec_base(fake) is not None:
+                a_ = n0.get("c", [])
                 sz = ("call", self.init_member[n["id"]] + ".size()")
                 N = None
                 if len(a_) >= 1 and is_int(facts.ty(f, strip(a_[0]))):
@@ -1965,7 +2095,7 @@ class FnBounds(object):
         cname = n.get("cname")
         callee = n.get("callee")
         self.check_call_preconditions(n, args, st, pos)
-        self.pending_ref_call = (n, args)
+        self.check_state_requirements(n, args, st, pos)
         pre_idx = set(pi for (q_, pi) in list(PRECONDITIONS) + list(OUT_BUFFERS)
                       if callee and self.db.fn(callee) is not None and self.db.fn(callee)["qual"] == q_)
         # streams passed by non-const reference lose their facts
@@ -1990,6 +2120,12 @@ class FnBounds(object):
                     self.oblige(args[pi], "sink:" + cname, P, const((L.k + 7) // 8), st,
                                 "%s(%s, %d bits)" % (cname, facts.expr_str(args[pi])[:40], L.k))
             return st
+        if n.get("ext") and cname in EXT_PAIRS:
+            for pi, li, mode in EXT_PAIRS[cname]:
+                if pi < len(args) and li < len(args):
+                    P, L = self.lin(args[pi], st, pos), self.lin(args[li], st, pos)
+                    if P is not None and any(a in self.extent for a in P.atoms()):
+                        self.oblige(args[pi], "sink:" + cname, P, L, st, "%s(%s, %s)" % (cname, facts.expr_str(args[pi])[:40], facts.expr_str(args[li])[:30]))
         if n.get("ext") and cname in EXT_FIXED:
             for pi, nb, mode in EXT_FIXED[cname]:
                 if pi < len(args):
